@@ -935,6 +935,7 @@ func main() {
 	writeTrigger(t, *out)
 	writeSlot(t, *out)
 	writeMergeMM(t, *out)
+	writeChanHelpers(t, *out)
 	if err := os.MkdirAll(*out, 0o755); err != nil {
 		fmt.Fprintln(os.Stderr, err)
 		os.Exit(2)
